@@ -44,7 +44,7 @@ def get_length_determinant_length(length):
         return 2
     elif length < 65536:
         return 3
-    elif length < 1677726:
+    elif length < 16777216:
         return 4
     else:
         return 5
